@@ -232,14 +232,40 @@ def context_managers(check, P):
     return n
 
 
+class _Remap:
+    """Report the transformer-algebra rules of C04 under this property's rule ids."""
+
+    def __init__(self, check, ids):
+        self.check, self.ids = check, ids
+
+    def ok(self, rid, msg):
+        self.check.ok(self.ids[rid], msg)
+
+    def undecided(self, rid, what):
+        self.check.undecided(self.ids[rid], what)
+
+    def violation(self, rid, key, message, constructs=(), **detail):
+        self.check.violation(self.ids[rid], key, message, constructs, **detail)
+
+    def floor(self, cond, message):
+        self.check.floor(cond, message.replace("C04.", "C13<-C04."))
+
+
 def run(check, repo, tier):
     check.rule("R1", "named states are immutable snapshots; saves copy the live transform")
     check.rule("R2", "save/restore follow stack order; empty stack raises IndexError; delete_state removes a name")
     check.rule("R3", "transform context managers restore transform and stack on return and on exception")
+    check.rule("R4", "reverse undoes apply: apply multiplies with the stored matrix, reverse with the stored inverse, and the inverse is "
+                     "always inv() of the very matrix stored with it; a new matrix is conjugated with the pivot translations -p / +p (rules R4, R5 of C04)")
+    check.rule("R5", "rotate / scale / reflect / mirror chain a matrix without translation part (identity outside the upper-left 3x3 block, "
+                     "or diagonal), so after conjugation the pivot is a fixed point (rule R6 of C04)")
     P = Program(repo)
     n1 = sequences_on_transformer(check, P)
     n3 = context_managers(check, P)
-    check.analysed = {"program": P.stats(), "sequence_paths": n1, "context_manager_paths": n3}
+    from . import c04
+    n4 = c04.transformer_rules(_Remap(check, {"R4": "R4", "R5": "R4"}), P)
+    n4 += c04.constructor_rules(_Remap(check, {"R6": "R5"}), P)
+    check.analysed = {"program": P.stats(), "sequence_paths": n1, "context_manager_paths": n3, "transformer_algebra_paths": n4}
     check.sample({"sequence": "chain(M1); save('a'); restore('a'); chain(M2); restore('a')", "compared": "(matrix, inverse, from_pivot, to_pivot, pivot) value numbers of the live transform"})
     check.sample({"sequence": "with current_transform(): chain(M2); save(); save(); restore(); [raise]", "compared": "live transform and every stack entry, before entry vs after exit"})
     check.coverage["exhaustive"] = True
